@@ -70,8 +70,9 @@ CLAIMED = {
               'oracle = recognisers written with plain loops'),
     "C15": _t("Length-prefixed, static-cap, delimiter-echo (by value and through &P, parse and check), nearest-provider (nested, per iteration, "
               "after an abandoned alternative), try_configure and map_ctx grammars against direct oracles for all inputs up to N=3..4.", "direct oracles"),
-    "C16": _t("nested_in over token trees (<=2 outer tokens, groups of <=2 leaves): inner parser sees exactly the inner tokens and must consume them, "
-              "outer advances by one token, inner emissions surface, failed / abandoned nested parses are backtracked over — against a direct oracle.",
+    "C16": _t("nested_in over token trees (depth 2: <=2 outer tokens, groups of <=2 leaves; depth 3 and 4: chains with <= 2 tokens per level): inner parser sees exactly the "
+              "inner tokens and must consume them, outer advances by one token, inner emissions surface (also from the innermost of three levels, also next to an inner failure), a nested parse that "
+              "succeeds keeps the error pending from an earlier alternative, failed / abandoned nested parses are backtracked over — against a direct oracle.",
               "direct oracle over the symbolic tree"),
     "C17": _t("Decorated vs undecorated grammar (labelled, as_context, map_err, map_err_with_state) with BitErr: same acceptance, output, error count, "
               "span and found; label replaces expectations only at the first token, inner expectations kept further in, as_context adds (label, span); "
